@@ -9,7 +9,7 @@ from noiseref.patterns import CIPHERS, DHS, HASHES, PATTERN_NAMES, make_name, pa
 from .. import core, sessions
 from ..script import Case
 
-HS_ACTIONS = ["W", "Wb", "R", "Rs", "Rg", "T", "S"]
+HS_ACTIONS = ["W", "Wb", "R", "Rs", "Rg", "T", "S", "Tf", "Sf"]  # Tf/Sf: the public TryFrom conversions
 TR_ACTIONS = ["tw", "twb", "tr", "trg"]
 SHAPES = ["Noise_N_25519_ChaChaPoly_SHA256", "Noise_X_25519_AESGCM_SHA256", "Noise_NN_25519_ChaChaPoly_BLAKE2s", "Noise_XX_25519_ChaChaPoly_SHA256",
           "Noise_X1X1_25519_AESGCM_SHA512", "Noise_NNpsk0_25519_ChaChaPoly_SHA256", "Noise_XXpsk3_25519_XChaChaPoly_BLAKE2b", "Noise_Kpsk1_P256_ChaChaPoly_SHA256"]
@@ -97,10 +97,10 @@ class Sim:
                     exp = self._rerr()
                 self._note(lab, exp)
             else:
-                op = "to_transport" if a == "T" else "to_stateless"
-                lab = c.op(op, "P")
+                op = "to_transport" if a[0] == "T" else "to_stateless"
+                lab = c.op(op, "P", flags=("tf",) if a.endswith("f") else ())
                 if self.fin():
-                    self.phase = "tr" if a == "T" else "sl"
+                    self.phase = "tr" if a[0] == "T" else "sl"
                     exp = "ok"
                 else:
                     self.phase = "gone"
@@ -189,8 +189,8 @@ def sequences(parsed, p_init, k0, depth):
                     npos += 1
                 elif a == "R" and not turn and not fin:
                     npos += 1
-                elif a in ("T", "S"):
-                    nphase = ("tr" if a == "T" else "sl") if fin else "gone"
+                elif a in ("T", "S", "Tf", "Sf"):
+                    nphase = ("tr" if a[0] == "T" else "sl") if fin else "gone"
                 rec(seq + [a], npos, nphase)
         else:
             for a in TR_ACTIONS:
@@ -252,7 +252,7 @@ class CheckC11(core.Check):
                     break
                 if sim.phase == "hs":
                     # bias towards progress so deep states are reached
-                    a = rnd.choice(HS_ACTIONS + ["W", "R", "W", "R"] + (["T", "S"] if sim.fin() else []))
+                    a = rnd.choice(HS_ACTIONS + ["W", "R", "W", "R"] + (["T", "S", "Tf", "Sf"] if sim.fin() else []))
                 else:
                     a = rnd.choice(TR_ACTIONS)
                 sim.act(a)
